@@ -137,3 +137,35 @@ def inside_query(rng, wj, spherical, feature=None):
     d = float(round(rng.uniform(lo, max(lo, min(hi, lo + 2e5)))))
     radius = wj.get("coordinate system", {}).get("radius", 6371000.0)
     return cart_point(spherical, x, y, d, radius, TOP), d
+
+
+def line_query(rng, wj, spherical, f, spread=1.2):
+    """a 3-D query around a slab/fault: near the trench, on either side, down to min depth + length + thickness"""
+    cs = f["coordinates"]
+    i = rng.randrange(len(cs) - 1)
+    t = rng.uniform(-0.1, 1.1)
+    bx = cs[i][0] + t * (cs[i + 1][0] - cs[i][0])
+    by = cs[i][1] + t * (cs[i + 1][1] - cs[i][1])
+    dx, dy = cs[i + 1][0] - cs[i][0], cs[i + 1][1] - cs[i][1]
+    L = math.hypot(dx, dy) or 1.0
+    segsets = [f["segments"]] + [s["segments"] for s in f.get("sections", [])]
+    total = max(sum(s["length"] for s in segs) for segs in segsets)
+    thick = max(max(s["thickness"]) for segs in segsets for s in segs)
+    reach = spread * (total + thick)
+    off = rng.uniform(-reach, reach) if rng.random() < 0.8 else 0.0
+    if spherical:
+        off = off / 111e3      # metres -> degrees (roughly)
+    x, y = bx - dy / L * off, by + dx / L * off
+    lo = f.get("min depth", 0.0)
+    u = rng.random()
+    if u < 0.1:
+        d = lo
+    elif u < 0.2:
+        d = lo + total + thick * rng.uniform(0.0, 1.0)
+    else:
+        d = rng.uniform(max(0.0, lo - 1e4), lo + spread * (total + thick))
+    d = float(round(max(0.0, d)))
+    radius = wj.get("coordinate system", {}).get("radius", 6371000.0)
+    if spherical:
+        y = max(-89.0, min(89.0, y))
+    return cart_point(spherical, x, y, d, radius, TOP), d
